@@ -3,6 +3,7 @@ from __future__ import annotations
 
 import json
 
+import c01_typed
 import pyden
 import rules
 from common import Err
@@ -20,7 +21,9 @@ RULE = ("random rule systems (3-8 variables over the expression language of coq/
         "request sequences (set_input, calculate, calculate_add, calculate_divide, get_array, delete_arrays); a case is "
         "non-trivial when at least one request ran a formula (a value was cached that is not an input); distinct by JSON text")
 TRUSTED = ["harness/rules.py: compiler from rule-system terms to real Variable subclasses (formulas call the public API)"]
-ASSUMPTIONS = ["generated values stay below 2^22 in absolute value (exact in int32 and float32); cases producing a "
+ASSUMPTIONS = ["the engine model carries int/float/bool values; Enum, date and str variables and the dtype casts of "
+               "_cast_formula_result are exercised by an oracle-only stream (harness/c01_typed.py, CSkip on the Coq side)",
+               "generated values stay below 2^22 in absolute value (exact in int32 and float32); cases producing a "
                "non-integer or larger value are discarded and counted (classify = 'skipped-inexact')",
                "the cycle clause is claimed for cycles in which no other variable repeats before the cycle closes"]
 
@@ -39,10 +42,14 @@ def generate(rng, tier):
     cases = []
     for k in range(n):
         cases.append(rules.gen_case(rng, CYCLE_PROFILE if k % 8 == 7 else PROFILE))
+    for _ in range(max(40, n // 12)):
+        cases.append(c01_typed.gen(rng))      # Enum / date / str / cast stream (oracle only)
     return cases
 
 
 def run_impl(case):
+    if case.get("typed"):
+        return c01_typed.run(case)
     out = rules.run_case(case)
     if out == "skip":
         _SKIP.add(_key(case))
@@ -50,14 +57,24 @@ def run_impl(case):
 
 
 def coq_case(case):
+    if case.get("typed"):
+        return "CSkip"
     return rules.coq_case(case, skip=_key(case) in _SKIP)
 
 
 def obs_for_coq(case, obs):
+    if case.get("typed"):
+        return "skip"
     return obs
 
 
 def oracle(case, obs):
+    if case.get("typed"):
+        if isinstance(obs, Err):
+            return f"typed: the driver failed: {obs.msg}"
+        if obs["stack"] != 0:
+            return "stack: evaluation stack not empty after the typed requests"
+        return ("typed: " + "; ".join(obs["typed"][:3])) if obs["typed"] else None
     if obs == "skip" or isinstance(obs, Err):
         return None
     for k, (a, depth, _cache) in enumerate(obs):
@@ -67,6 +84,8 @@ def oracle(case, obs):
 
 
 def nontrivial(case, obs):
+    if case.get("typed"):
+        return not isinstance(obs, Err)
     if obs == "skip" or isinstance(obs, Err):
         return False
     nset = sum(1 for r in case["requests"] if r[0] == "set")
@@ -75,6 +94,8 @@ def nontrivial(case, obs):
 
 
 def classify(case, obs):
+    if case.get("typed"):
+        return "typed:" + case["enum_returns"] + "/" + case["num_returns"]
     if obs == "skip":
         return "skipped-inexact"
     if isinstance(obs, Err):
